@@ -15,7 +15,40 @@ PY = "/venv/bin/python"
 WRAP = str(core.VERIF / "vf" / "nnvg_wrap.py")
 
 
-def run_inproc(argv: typing.List[str], cwd: typing.Optional[str] = None) -> typing.Tuple[int, str, str]:
+@contextlib.contextmanager
+def fake_clock(t: typing.Optional[float]):
+    """Inside the block time.time()/time_ns()/datetime.now()/utcnow()/today() report t (harness-owned clock)."""
+    if t is None:
+        yield
+        return
+    import datetime as _dt
+    import time as _time
+
+    real_time, real_ns, real_dt = _time.time, _time.time_ns, _dt.datetime
+
+    class FakeDateTime(real_dt):  # type: ignore
+        @classmethod
+        def now(cls, tz=None):
+            return real_dt.fromtimestamp(t, tz)
+
+        @classmethod
+        def utcnow(cls):
+            return real_dt.fromtimestamp(t, _dt.timezone.utc).replace(tzinfo=None)
+
+        @classmethod
+        def today(cls):
+            return real_dt.fromtimestamp(t)
+
+    _time.time = lambda: t  # type: ignore
+    _time.time_ns = lambda: int(t * 1e9)  # type: ignore
+    _dt.datetime = FakeDateTime  # type: ignore
+    try:
+        yield
+    finally:
+        _time.time, _time.time_ns, _dt.datetime = real_time, real_ns, real_dt  # type: ignore
+
+
+def run_inproc(argv: typing.List[str], cwd: typing.Optional[str] = None, fake_time: typing.Optional[float] = None) -> typing.Tuple[int, str, str]:
     """python -m nunavut <argv> inside this interpreter. Returns (rc, stdout, stderr)."""
     import logging
 
@@ -29,7 +62,7 @@ def run_inproc(argv: typing.List[str], cwd: typing.Optional[str] = None) -> typi
         sys.argv = ["nnvg"] + [str(a) for a in argv]
         if cwd:
             os.chdir(cwd)
-        with contextlib.redirect_stdout(out), contextlib.redirect_stderr(err):
+        with contextlib.redirect_stdout(out), contextlib.redirect_stderr(err), fake_clock(fake_time):
             try:
                 rc = nunavut.cli.main() or 0
             except SystemExit as e:
